@@ -150,6 +150,9 @@ RejectClasses == PreValidationRejects \cup PostValidationRejects \cup {"unknownp
 RejectBase(rej, f) ==
     CASE rej \in {"multict", "unknownpath", "unknownpath-handler", "rpc-put", "badtimeout", "unknowncodec", "noflusher"} -> TRUE
       [] rej \in {"connectver-noct-post", "connectq-post", "rpc-get-notnse"} -> f \in {"connect_post", "connect_get"}
+      \* a POST that carries the Connect GET marker ?connect=v1 next to an application/* content type (and no protocol
+      \* version header): not a Connect GET, not anything else either - whether the path is an RPC path or a REST binding
+      [] rej = "connectq-post-ct" -> f \in {"connect_post", "rest"}
       [] rej \in {"restnoroute", "rest405"} -> f = "rest"
       [] rej = "streamtype" -> f \in {"connect_post", "connect_stream", "rest"}
       [] rej = "bidi-http1" -> f \in {"grpcweb", "connect_stream"}
